@@ -17,6 +17,8 @@ Directive syntax inside a template (`verus/units/<unit>.rs.in`):
   //@| <proof text placed before that statement>
   //@in_loop <ordinal>
   //@| <proof text placed at the start of that loop's body>
+  //@before_loop <ordinal>
+  //@| <proof text (ghost declarations) placed in front of that loop statement: an anchor that survives renamed locals>
   //@in_loop_end <ordinal>
   //@| <proof text placed at the end of that loop's body (before its closing brace)>
   //@after_text "<exact text>" [nth=<k>]
@@ -186,6 +188,7 @@ class Expander:
         sig_spec, loops, befores, drops, after_texts, in_loops = [], {}, [], [], [], []
         loop_iters = {}
         in_loop_ends = []
+        before_loops = []
         loop_enums = {}
         loop_index = {}
         desugared = []
@@ -208,6 +211,9 @@ class Expander:
                 _p, _kv = _parse_kv(t)
                 cur = []
                 befores.append((_p[0], int(_kv.get("nth", "0")), cur))
+            elif b.startswith("//@before_loop "):
+                cur = []
+                before_loops.append((int(b.split()[1]), cur))
             elif b.startswith("//@in_loop_end "):
                 cur = []
                 in_loop_ends.append((int(b.split()[1]), cur))
@@ -266,6 +272,11 @@ class Expander:
                                % (rel, name, n_loops, missing, extra))
         # build insertion list: (abs position, text) ; and deletions (a,b)
         ins, dels = [], []
+        for (ordinal, txt) in before_loops:
+            lp = S.loops(bo, end)
+            if ordinal >= len(lp):
+                raise ExtractError("%s::%s: no loop %d" % (rel, name, ordinal))
+            ins.append((lp[ordinal][0], "\n".join(txt) + "\n        "))
         for ordinal, (kw, brace) in enumerate(S.loops(bo, end)):
             ins.append((brace, "\n" + "\n".join("            " + x for x in loops[ordinal]) + "\n        "))
             if ordinal in loop_iters:
